@@ -353,7 +353,8 @@ def gen_soup(rng):
         raw.append("".join(rng.choice(SOUP_TOKENS) for _ in range(rng.randint(0, 7))))
     doc = None
     if rng.random() < 0.3:
-        doc = rng.choice(raw[1:] + ["x", "text"])
+        # (no ':' in the synthetic __doc__: docstring_parser, a third-party oracle here, crashes on some ReST-looking texts)
+        doc = rng.choice([l for l in raw[1:] if ":" not in l and l.strip()] + ["x", "text"])
     k = dict(name="K", bases=[], raw=raw, synthetic=True, doc=doc)
     qs = [["K", n] for n in ["x", "ab", "a", "lr", "int", "class", "text"]]
     if rng.random() < 0.3:   # a synthetic base class too
@@ -450,7 +451,10 @@ def run_impl(cases):
                     src = None
                 doc = cls.__doc__ or None
                 gd = inspect.getdoc(cls)
-                args = [[p.arg_name, p.description or ""] for p in dp.parse(gd).params] if gd else []
+                try:
+                    args = [[p.arg_name, p.description or ""] for p in dp.parse(gd).params] if gd else []
+                except Exception as e:  # noqa: BLE001 - the oracle itself failed: reported as outside the model's scope
+                    raise RuntimeError(f"docstring_parser failed on the class docstring: {type(e).__name__}")
                 kobs.append(dict(name=k["name"], mro=[c.__name__ for c in inspect.getmro(cls)[:-1]],
                                  src=src.split("\n") if src is not None else None,
                                  doc=doc.split("\n") if doc else None, args=args))
@@ -476,6 +480,8 @@ def run_impl(cases):
                     continue
                 helps = r[1]
             out.append(dict(error=None, classes=kobs, queries=qobs, helps=helps))
+        except RuntimeError as e:
+            out.append(dict(error=str(e), classes=[], queries=[], helps=[]))
         finally:
             D.inspect_getsource = real_getsource
             sys.modules.pop(modname, None)
